@@ -23,11 +23,13 @@
      the first count, vid and source; a memo whose grams 0..k-1 are all present is
      fused to the concatenation in gram order, once (one entry per memo id, removed
      on delivery); a memo with a gram missing is never fused and stays.
+   - C20_reassembly_partial : the composition at datagram level (all grams of any number
+     of memos, any schedule, then one service), and C20_rend_is_grams tying rend to it.
    The hypotheses that exclude the refuted classes: grams are "accepted" (for a
    signed non-zeroth gram this needs its zeroth gram earlier), and no copy of a
    memo's grams arrives after the pass that delivered it. *)
 From Hio Require Import Base.Prelude Model.B64 Model.MemoGram Model.MemoRx
-  Proofs.MemoRxProofs Proofs.MemoFuseProofs Proofs.MemoCodecProofs Proofs.MemoCodecB2Proofs Proofs.MemoRendProofs.
+  Proofs.MemoRxProofs Proofs.MemoFuseProofs Proofs.MemoCodecProofs Proofs.MemoCodecB2Proofs Proofs.MemoRendProofs Proofs.MemoComposeProofs.
 Local Open Scope N_scope.
 
 (* ---- storage: any order / duplication / interleaving ---- *)
@@ -104,7 +106,7 @@ Print Assumptions C20_rend_partition.
 
 (* ---- codec round trip ---- *)
 Theorem C20_codec_b64 : forall verify sign authic vids c n mid vid body,
-  codec_premises verify sign vid ->
+  (auth c = true -> codec_premises verify sign vid) ->
   kind_of c <> KAck -> (authic = true -> auth c = true) ->
   n < 16777216 -> length mid = 24%nat -> is_b64 mid = true ->
   (auth c = true -> length vid = 44%nat /\ is_b64 vid = true) ->
@@ -122,7 +124,7 @@ Proof. exact codec_b64. Qed.
 Print Assumptions C20_codec_b64.
 
 Theorem C20_codec_b2 : forall verify sign authic vids c n mid vid body,
-  codec_premises verify sign vid ->
+  (auth c = true -> codec_premises verify sign vid) ->
   kind_of c <> KAck -> (authic = true -> auth c = true) ->
   n < 16777216 -> length mid = 24%nat -> is_b64 mid = true ->
   (auth c = true -> length vid = 44%nat /\ is_b64 vid = true) ->
@@ -151,6 +153,84 @@ Example C20_codec_example :
                 AN 5 false [104;105]) =
      Ok {| p_mid := repeat 77 24; p_vid := Some vid; p_gn := 5; p_gc := None; p_body := [104;105] |}.
 Proof. split; [intros m; repeat split|intros []; vm_compute; reflexivity]. Qed.
+
+(* ---- composition: from the sender's grams to the receiver's inbox ---- *)
+(* ms : the memos as segmented (parameters, source, gram bodies; rend produces
+   exactly [gram sign m 0; gram sign m 1; ..], C20_rend_is_grams).  s : ANY
+   schedule of (memo index, gram index) pairs: any order, duplicates,
+   interleaving of the memos, grams withheld.  All datagrams of the schedule
+   arrive and the receiver is serviced once.  Premises = the two exclusions of
+   the refuted classes: [ordered] (a signed memo's non-zeroth grams come after a
+   copy of its zeroth gram) and service after the arrivals.  Then: no exception;
+   every datagram is accepted; the inbox is exactly the fusable rx entries, one
+   entry per memo id; a memo all of whose grams are in s is delivered with its
+   text, source and signer id; a memo with a gram missing from s is not. *)
+Theorem C20_reassembly_partial : forall verify sign authic ms,
+  (forall j m, nth_error ms j = Some m -> msg_ok verify sign authic m) ->
+  (forall j j' m m', nth_error ms j = Some m -> nth_error ms j' = Some m' -> g_mid m = g_mid m' -> j = j') ->
+  forall s, Forall (valid ms) s -> ordered ms [] s ->
+  let l := map (pick_of ms) s in
+  let r := run verify authic init (ops_of sign ms s) in
+  Forall (fun x => x = None) (snd r) /\
+  rxms (fst r) = [] /\ queue (fst r) = [] /\
+  inbox (fst r) = flat_map deliverable (feed [] l) /\
+  NoDup (map e_mid (feed [] l)) /\
+  (forall j m, nth_error ms j = Some m -> g_bodies m <> [] ->
+     (forall i, (i < length (g_bodies m))%nat -> In (j, i) s) ->
+     utf8_ok (concat (g_bodies m)) = true ->
+     exists e, find_entry (g_mid m) (feed [] l) = Some e /\
+               deliverable e = [(concat (g_bodies m), g_src m, g_vidopt m)]) /\
+  (forall j m i e, nth_error ms j = Some m -> (i < length (g_bodies m))%nat -> ~ In (j, i) s ->
+     find_entry (g_mid m) (feed [] l) = Some e -> deliverable e = []).
+Proof.
+  intros verify sign authic ms Hok Hd s Hv Ho l r.
+  unfold r. rewrite (run_sched verify sign authic ms Hok Hd s Hv Ho). cbn [fst snd rxms queue inbox].
+  split.
+  { apply Forall_app. split; [|repeat constructor]. apply Forall_forall. intros x Hx.
+    apply in_map_iff in Hx. destruct Hx as (y & <- & _). reflexivity. }
+  split; [reflexivity|]. split; [reflexivity|]. split; [reflexivity|]. split; [apply feed_nodup|]. split.
+  - intros j m Hm Hne Hall U. eapply complete_delivered; eauto.
+  - intros j m i e Hm Hi Hn Fe. eapply incomplete_not_delivered; eauto.
+Qed.
+Print Assumptions C20_reassembly_partial.
+
+(* rend's output is that gram list, and its bodies concatenate to the memo *)
+Theorem C20_rend_is_grams : forall sign p src memo grams,
+  rend sign p memo = Ok grams -> memo <> [] ->
+  let m := msg_of p src memo in
+  grams = map (gram sign m) (seq 0 (length (g_bodies m))) /\ concat (g_bodies m) = memo /\ g_bodies m <> [].
+Proof. exact rend_is_grams. Qed.
+Print Assumptions C20_rend_is_grams.
+
+(* Non-vacuity: a signed memo of 3 grams (base2 heads) and an unsigned one of 2
+   grams (Base64 heads), interleaved, with duplicates, zeroth first for the
+   signed one; both delivered exactly once.  Premises hold for the toy scheme. *)
+Definition ex_sign (_ _ : bytes) : bytes := repeat 65 88.
+Definition ex_verify (v s m : bytes) : res unit :=
+  match v with [] => Exc MemoErr | _ => if bytes_eqb s (repeat 65 88) then Ok tt else Exc MemoErr end.
+Definition ex_ms : list msg :=
+  [ {| g_p := {| r_code := AZ; r_curt := true; r_size := 0; r_mid := repeat 77 24; r_vid := 66 :: repeat 120 43 |};
+       g_src := 1; g_bodies := [[104]; [105; 33]; [63]] |};
+    {| g_p := {| r_code := GZ; r_curt := false; r_size := 0; r_mid := repeat 78 24; r_vid := [] |};
+       g_src := 2; g_bodies := [[97; 98]; [99]] |} ].
+Example C20_reassembly_example :
+  let s := [(0, 0); (1, 1); (0, 2); (0, 2); (1, 0); (0, 1); (0, 0); (1, 1)]%nat in
+  (forall j m, nth_error ex_ms j = Some m -> msg_ok ex_verify ex_sign false m) /\
+  ordered ex_ms [] s /\ Forall (valid ex_ms) s /\
+  inbox (fst (run ex_verify false init (ops_of ex_sign ex_ms s))) =
+    [([104; 105; 33; 63], 1, Some (66 :: repeat 120 43)); ([97; 98; 99], 2, None)].
+Proof.
+  split.
+  { intros [|[|j]] m H; cbn in H; inversion H; subst; clear H.
+    - repeat split; try reflexivity; try (intros; discriminate).
+    - repeat split; try reflexivity; try (intros; discriminate).
+    - destruct j; discriminate. }
+  split.
+  { cbn. repeat split; intros m H; inversion H; subst; cbn; intros; try discriminate; try contradiction; auto 10. }
+  split.
+  { repeat constructor; eexists; split; cbn; try reflexivity; cbn; lia. }
+  vm_compute. reflexivity.
+Qed.
 
 (* ---- refutations of the full statement (faithful model, concrete witnesses) ---- *)
 Definition toy_verify (v s m : bytes) : res unit :=
